@@ -55,7 +55,8 @@ MANIFEST = {
             'RADICAL_SMT) are prepared by the same method and node_count / '
             'total_cpu_count / total_gpu_count and the figures written to '
             'agent_0.cfg are compared with Fraction/ceil arithmetic written '
-            'independently.',
+            'independently.'
+            '  Second session: the resolved config of every cell is compared value by value with the shipped entry overlaid with the schema (computed from the json files); a third of the sizing cases prepare 1-3 earlier pilots of the same bulk with the same resolved config object first, which must leave it unchanged.',
     'note': 'Session and launcher objects are built with __new__ (no bridges, '
             'no job submission); the matrix part is exhaustive (flag in the '
             'evidence), the sizing part is sampled plus a fixed boundary sweep '
